@@ -79,6 +79,15 @@ def kept_nodes(m: Model, modules):
             nfn += 1
             nb += len(builds)
             globs = {x for g in astq.walk_no_nested(fn) if isinstance(g, (ast.Global, ast.Nonlocal)) for x in g.names}
+            # names whose value outlives the call without a `global` statement: a parameter default built once at definition time
+            # (`def f(self, _memo={})`) and a module-level name the function does not rebind (a module-level table mutated in place)
+            a_ = fn.args
+            pos = a_.posonlyargs + a_.args
+            longlived = {arg.arg for arg, dv in list(zip(pos[len(pos) - len(a_.defaults):], a_.defaults)) + [(k, v) for k, v in zip(a_.kwonlyargs, a_.kw_defaults) if v is not None]
+                         if isinstance(dv, (ast.Dict, ast.List, ast.Set, ast.ListComp, ast.DictComp, ast.SetComp, ast.Call))}
+            locals_ = {t.id for t, _st in astq.stores(fn, nested=False) if isinstance(t, ast.Name)} | {x.arg for x in pos + a_.kwonlyargs} - longlived
+            longlived |= {t.id for st in m.trees[mod].body if isinstance(st, (ast.Assign, ast.AnnAssign)) for t in (st.targets if isinstance(st, ast.Assign) else [st.target])
+                          if isinstance(t, ast.Name)} - locals_
             tainted = set()
             # two passes so a later alias of an earlier local is seen regardless of statement order in loops
             for _ in range(2):
@@ -97,6 +106,13 @@ def kept_nodes(m: Model, modules):
                     continue
                 if isinstance(t, (ast.Tuple, ast.List)):
                     continue
+                if isinstance(t, ast.Subscript):
+                    # a slot of a container: outlives the call unless the container is a local of this call
+                    root = t
+                    while isinstance(root, (ast.Attribute, ast.Subscript)):
+                        root = root.value
+                    if isinstance(t.value, ast.Name) and isinstance(root, ast.Name) and root.id not in longlived and root.id not in globs:
+                        continue
                 if id(st) in seen:
                     continue
                 seen.add(id(st))
@@ -108,8 +124,8 @@ def kept_nodes(m: Model, modules):
                     root = base
                     while isinstance(root, (ast.Attribute, ast.Subscript)):
                         root = root.value
-                    outlives = isinstance(base, (ast.Attribute, ast.Subscript)) and isinstance(root, ast.Name) and root.id in ('self', 'cls') or \
-                        (isinstance(base, ast.Name) and base.id in globs)
+                    outlives = isinstance(base, (ast.Attribute, ast.Subscript)) and isinstance(root, ast.Name) and (root.id in ('self', 'cls') or root.id in longlived or root.id in globs) or \
+                        (isinstance(base, ast.Name) and (base.id in globs or base.id in longlived))
                     if outlives and any(builds_node(a, ctors, tainted) for a in c.args):
                         sites.append((mod, qn, c, f'`{astq.u(c)[:90]}` keeps a node built by this function in `{astq.u(base)[:40]}`'))
     # a kept node matters when the place it is kept in is read back somewhere (so it can be handed out again)
